@@ -23,4 +23,5 @@ P
 rc=$?
 rm -f /tmp/.stable_out.$$.json
 git -C "$1" checkout -q -- debian/apparmor.d.hide 2>/dev/null
+rm -rf "$1/.build"   # Test_Prebuild builds into the tree it runs in
 exit $rc
